@@ -2165,6 +2165,9 @@ extern int32 matrixServerSetKeysSNI(ssl_t *ssl, char *host, int32 hostLen);
 extern sslKeys_t *matrixServerGetKeysSNI(ssl_t *ssl, char *host, int32 hostLen);
 
 #  ifdef USE_STATELESS_SESSION_TICKETS
+extern void matrixSslSessTicketKeysLock(void);
+extern void matrixSslSessTicketKeysUnlock(void);
+extern int32 matrixSslHaveSessTicketKeys(const sslKeys_t *keys);
 extern int32 matrixSessionTicketLen(void);
 extern int32 matrixCreateSessionTicket(ssl_t *ssl, unsigned char *out,
                                        int32 *outLen);
